@@ -29,10 +29,13 @@ def one(name):
         shutil.rmtree(d, ignore_errors=True)
 
 
+from concurrent.futures import as_completed
+bad, n = [], 0
 with ThreadPoolExecutor(jobs) as ex:
-    res = list(ex.map(one, seeds))
-bad = 0
-for name, v, o in res:
-    print(f'{name}: {v} {o[:140]}')
-    bad += v != 'CAUGHT'
-print(f'{len(res) - bad}/{len(res)} caught')
+    for fut in as_completed([ex.submit(one, s) for s in seeds]):
+        name, v, o = fut.result()
+        n += 1
+        print(f'{name}: {v} {o[:140]}', flush=True)
+        if v != 'CAUGHT':
+            bad.append(name)
+print(f'{n - len(bad)}/{n} caught' + (f'; NOT caught: {sorted(bad)}' if bad else ''), flush=True)
